@@ -273,6 +273,28 @@ fn scripted() -> Vec<String> {
         std::mem::forget(hs);
         std::mem::forget(pool);
     }
+    // S4: exactly full slab, remove an object whose destructor panics, then insert: the vacated slot must be reused
+    {
+        let mut pool = RawOpaquePool::with_layout_of::<Big>();
+        let mut hs: Vec<_> = (0..32u64).map(|i| insert_ok(&mut pool, i)).collect();
+        let victim = hs.pop().unwrap();
+        PANIC_ON_DROP_ID.with(|p| p.set(31));
+        let _ = catch_unwind(AssertUnwindSafe(|| unsafe { pool.remove(victim) }));
+        let cap = pool.capacity();
+        let len_ok = pool.len() == 31 && pool.iter().count() == 31;
+        let r = catch_unwind(AssertUnwindSafe(|| insert_ok(&mut pool, 99)));
+        match r {
+            Ok(h) => {
+                if pool.capacity() != cap || !len_ok || pool.len() != 32 {
+                    out.push(format!("S4 fill 32, remove one whose destructor panics, insert: capacity {} (was {cap}), len {}, accounting after the panic ok = {len_ok}", pool.capacity(), pool.len()));
+                }
+                std::mem::forget(h);
+            }
+            Err(_) => out.push("S4 fill 32 (full slab), remove one whose destructor panics, then insert: the insert panicked".to_string()),
+        }
+        std::mem::forget(hs);
+        std::mem::forget(pool);
+    }
     out
 }
 
